@@ -292,6 +292,22 @@ class ProgGen:
             b = self.expr(U8, d - 1, pure)
         return self.binop(op, ty, self.expr(ty, d - 1, pure), b)
 
+    def ctx_expr(self, ty, d, pure):
+        """an expression in a position whose type is fixed by its context (annotated let, return value, argument):
+        now and then a shift whose left operand is a number without a suffix - it takes the type of the context"""
+        if "untyped" in self.features and "core" not in self.features and is_int(ty) and d > 0 and self.rng.random() < 0.12:
+            lo, hi = T.int_range(ty["t"])
+            v = self.rng.choice([x for x in (1, 2, 3, 5, 100, 1000, -1, -8) if lo <= x <= hi])
+            a = E(str(v), ["int", v, ty["t"]])
+            bits = T.INTS[ty["t"]][1]
+            if self.rng.random() < 0.6:
+                b = self.val_expr(U8, self.rng.choice([0, 1, 2, 3, bits - 1, bits // 2]))
+            else:
+                b = self.expr(U8, d - 1, pure)
+            self.note("untyped-shift-lhs")
+            return self.binop(self.rng.choice(["<<", ">>"]), ty, a, b)
+        return self.expr(ty, d, pure)
+
     def e_unary(self, ty, d, pure):
         a = self.expr(ty, d - 1, pure)
         if signed(ty) and (self.rng.random() < 0.5 or "core" in self.features):
@@ -373,7 +389,7 @@ class ProgGen:
 
     def e_call(self, ty, d, pure):
         h = self.rng.choice([h for h in self.helpers if h["ret"] == ty])
-        args = [self.maybe_untyped(self.expr(t, d - 1, pure)) for _, t in h["params"]]
+        args = [self.maybe_untyped(self.ctx_expr(t, d - 1, pure)) for _, t in h["params"]]
         h["used"] = True
         return E(f"{h['name']}(" + ", ".join(a.text for a in args) + ")", ["call", h["name"], [a.ast for a in args]])
 
@@ -550,9 +566,9 @@ class ProgGen:
 
     def s_let(self, d, pure, muts):
         ty = self.small_ty(self.rng.choice([0, 1, 1, 2]))
-        e = self.expr(ty, d, pure)
-        ptext, past, binds = self.irrefutable(ty)
         ann = f": {T.ty_str(ty)}" if self.rng.random() < 0.3 else ""
+        e = self.ctx_expr(ty, d, pure) if ann else self.expr(ty, d, pure)
+        ptext, past, binds = self.irrefutable(ty)
         if ann:
             e = self.maybe_untyped(e, 0.7)
         for x, t in binds:
@@ -561,9 +577,9 @@ class ProgGen:
 
     def s_letmut(self, d, pure, muts):
         ty = self.small_ty(self.rng.choice([0, 1, 1, 2]))
-        e = self.expr(ty, d, pure)
-        x = self.fresh("m")
         ann = f": {T.ty_str(ty)}" if self.rng.random() < 0.3 else ""
+        e = self.ctx_expr(ty, d, pure) if ann else self.expr(ty, d, pure)
+        x = self.fresh("m")
         if ann or ty == INT("i32"):
             e = self.maybe_untyped(e, 0.7)            # without annotation an untyped number is an i32
         elif "untyped" in self.features and self.rng.random() < 0.6:
@@ -703,7 +719,7 @@ class ProgGen:
         n = self.rng.choice([0, 1, 2, 3, 4])
         impure = "impure" in self.features
         ss = [self.stmt(d, not impure) for _ in range(n)]
-        v = self.expr(ret, d, self.rng.random() < 0.8 or not impure)
+        v = self.ctx_expr(ret, d, self.rng.random() < 0.8 or not impure)
         texts, asts = join_stmts(list(ss) + [(v.text, ["expr", v.ast])])
         return "\n    ".join(texts), asts
 
